@@ -49,6 +49,8 @@ def convert(scn, lu, fu, cu):
     f = s["drive"]["field"]
     if "B" in f:
         f["B"] = f["B"] * ff
+    if f.get("kind") == "loop":
+        f["I"] = f["I"] * fc
     cur = s["drive"].get("currents")
     if cur is not None:
         for key in ("I", "I0", "I1"):
@@ -71,7 +73,7 @@ def gen(seed, idx, tier):
         screening=screening,
         steps=(3, 20) if not screening else (2, 5),
         dt_choices=[1e-3, 0.01, 0.02],
-        field_kinds=("const", "const", "ramp", "pw", "zero"),
+        field_kinds=("const", "const", "ramp", "pw", "zero", "loop"),
         eps_kinds=("none", "none", "spatial"),
         n_terminals=rnd.choice([0, 2, 2, 3]),
         n_probes=2,
@@ -239,7 +241,17 @@ def run(scn):
         n = min(len(t1), len(t2))
         compared = 0
         for a, b in zip(t1[:n], t2[:n]):
-            if [(x[1], x[2]) for x in a["attempts"]] != [(x[1], x[2]) for x in b["attempts"]]:
+            # refusals (which screening iteration, how many) must coincide; the number of screening
+            # iterations may differ only if the exit decision was a coin flip on the tolerance
+            pa = [(x[3], x[2]) for x in a["attempts"] if x[1]]
+            pb = [(x[3], x[2]) for x in b["attempts"] if x[1]]
+            flip = False
+            if a["n_screen"] != b["n_screen"] and a["screen_errs"] and b["screen_errs"]:
+                tol_s = scn["options"].get("screening_tolerance", 1e-3)
+                m = min(a["n_screen"], b["n_screen"]) - 1
+                ea, eb = a["screen_errs"][m], b["screen_errs"][m]
+                flip = abs(ea - eb) <= 1e-6 * tol_s and min(ea, eb) < tol_s <= max(ea, eb)
+            if pa != pb or flip:
                 h1.probe("twin_refusal_pattern_diverged")
                 break
             worst, wname = 0.0, None
